@@ -14,6 +14,7 @@ import numpy as np
 
 from vf.common import Plan, crandn, held, violated, inconclusive, rng_for, nrm, pick
 from vf import repo_tests
+from vf.common import structured, STRUCT_KINDS
 from vf.monitors import prox_mon
 from vf.monitors import STATE
 from vf.monitors import prox_mon
@@ -40,7 +41,8 @@ CLASSES = ["L1Reg", "L1Reg-arr", "L2Reg", "L2Reg-y", "L2Reg-L1", "L2Reg-Box", "L
            "Stack-Conj", "Unitary-FFT", "Unitary-Haar", "Unitary-Transpose", "Unitary-Conj",
            "fn-soft_thresh", "fn-l1_proj", "fn-l2_proj", "fn-linf_proj", "fn-psd_proj",
            "fn-hard_thresh"]
-INPUTS = ["gauss", "gauss-big", "zeros", "boundary", "interior", "ties", "tiny", "huge"]
+INPUTS = ["gauss", "gauss-big", "zeros", "boundary", "interior", "ties", "tiny", "huge",
+          "const", "onehot", "pow2", "small-int", "alternating"]
 PSD_INPUTS = ["sym", "herm", "nonherm", "rankdef", "repeated", "identity", "zero", "psd",
               "negdef", "psd-plus-skew", "skew", "triangular"]
 
@@ -182,6 +184,11 @@ def make_input(rng, inp, shape, cplx, info, alpha):
     if k == "box":
         dt = np.float64
     y = crandn(rng, shape, dt)
+    if inp in ("const", "onehot", "pow2", "small-int", "alternating"):
+        # data with structure Gaussian draws never have (equal entries, a single non-zero,
+        # exact powers of two, small integers, alternating signs)
+        with structured(STRUCT_KINDS.index(inp)):
+            return crandn(rng, shape, dt) * _SC[0]
     if inp == "gauss":
         return y * float(10 ** rng.uniform(-1, 1)) * _SC[0]
     if inp == "gauss-big":
@@ -352,6 +359,19 @@ def run_case(case):
     if case.get("npscalar") and np.ndim(alpha) == 0:
         alpha = np.float64(alpha)          # NumPy scalar instead of a Python float
     sig = "%s|%s|%s|%dd%s" % (cls, inp, y.dtype.char, len(shape), "|big" if case.get("big") else "")
+    if case["pseed"] % 3 == 1:
+        # history: the object first rejects calls (wrong shape, wrong rank, no array), then
+        # gets the valid one
+        nev = len(STATE.events)
+        for bad in (lambda: P(alpha, np.ones(tuple(shape) + (2,), y.dtype)),
+                    lambda: P(alpha, np.ones([s_ + 1 for s_ in shape], y.dtype)),
+                    lambda: P(alpha, None)):
+            try:
+                bad()
+            except Exception:
+                pass
+        # (the rejected calls are not "well-formed inputs": only mutation events count)
+        STATE.events[nev:] = [e_ for e_ in STATE.events[nev:] if e_["prop"] != "C11"]
     wit = dict(case)
     before = dict(STATE.count)
     y0 = y.copy()
